@@ -16,9 +16,9 @@ RULE = ('(a) all 2048 SecurityIssues flag combinations: causes_signature_verify_
         'party user id, whole own key = several signatures, message) x {all correct, each single signature wrong}. Non-trivial: scenario with an '
         'expired key or a wrong signature or >= 2 signatures; distinct by the scenario tuple. The domain is finite and enumerated completely.')
 RULE += ' Further subjects: a document signed by the signing subkey of the (expired) certificate; later attestations by the key on its user ids; a key expiration time of zero (= never); wrong signatures also with out-of-range integers.'
+RULE += ' Expiry sources: the most recent self-signature of the primary identity where an older self-signature of another identity says otherwise; the binding signature of the signing subkey; a direct-key self-signature where the self-certifications are silent.'
 ASSUMPTIONS = ['expiry is the only disqualifying key condition reachable through the public API today (self-signature verification is stubbed, '
-               'there is no "disabled" flag source)', 'signatures issued by a subkey of an expired primary are not asserted (PGPy evaluates the '
-               'issuing component; the statement does not say which component\'s expiry counts)', 'keys and signatures are made by refpgp so that '
+               'there is no "disabled" flag source)', 'keys and signatures are made by refpgp so that '
                'only PGPy\'s verification side is exercised']
 
 KEYS = [('rsa1024-0', 'RSA', 'weak'), ('rsa2048-2', 'RSA', 'strong'), ('dsa1024-0', 'DSA', 'weak'), ('dsa2048-1', 'DSA', 'strong'),
